@@ -17,6 +17,7 @@ RULE = ("Random operand trees of + / sum / * n / n * / join / make_silence and d
         "min(n,len) contiguous pieces, sizes differ by <=1, concatenation == r; mismatched rate/width/channels -> "
         "AudioParameterError and no result; non-whole-sample data rejected at construction; attribute assignment raises and "
         "leaves the value unchanged; operands byte-identical afterwards; == iff bytes and the three parameters agree.  "
+        "Also: joins of 255..4096 operands and of one-at-a-time temporaries, regions of 700-5000 samples divided by 745..len+1.  "
         "Non-trivial = operation on >=1 non-empty operand; distinct = distinct (operation, operands).")
 ASSUMPTIONS = [
     "division of an empty region is outside the statement and not generated",
